@@ -89,6 +89,20 @@ class CharacterConstant(Token):
     Represents a character constant.
     """
 
+    def spelling(self):
+        """
+        Return the string representation of this token in the input code.
+        Useful primarily for debugging and generating error messages.
+        """
+        return [f"'{self.token!s}'"]
+
+    def sanitized_str(self):
+        """
+        Return this character constant quoted for stringification.
+        """
+        escaped = self.token.replace("\\", "\\\\").replace('"', '\\"')
+        return f"'{escaped}'"
+
 
 @dataclass
 class NumericalConstant(Token):
